@@ -55,6 +55,22 @@ def join_rule(prog, rep, ctx):
             rep.bad("C12.join-cells", where, f"store {nshow(e.value)}",
                     f"joined cell is {nshow(e.value)}; expected self cell + second cell at the same index (or the clamp constant under the overflow test)", e.where())
             okc = False
+    # inside the walk a cell may be left unmerged only where it is pinned at one of the two limits
+    from ..intervals import EQ, path_orderings
+    for p in ps:
+        if p.exit[0] != "return" or not okc:
+            continue
+        lids = {c.loops[-1] for c in p.conds if c.loops}
+        if len(lids) != 1 or any(e.kind == "setelem" and outer_field(e.cont) == "_bins" for e in p.events):
+            continue
+        lid = next(iter(lids))
+        own = ("sub", ("f", SELF, "_bins", 0), ("pos", lid), 0)
+        cs = [strip_epochs(posform(c)) for c in all_conds(p)]
+        if not (path_orderings(cs, own, C(IMIN)) <= {EQ} or path_orderings(cs, own, C(IMAX)) <= {EQ}):
+            bad_c = [c for c in p.conds if c.loops][-1]
+            rep.bad("C12.join-cells", where, "cell skipped", "the walk leaves a cell unmerged on a path that has not established that the cell is pinned at INT32_MIN or INT32_MAX: "
+                    "the operand's count for that cell is dropped", f.where(bad_c.node))
+            okc = False
     # a returning path that merges no cell at all is sound only where the operand's cells are known to be all zero
     for p in ps:
         if p.exit[0] != "return" or any(e.kind == "setelem" and outer_field(e.cont) == "_bins" for e in p.events) \
